@@ -62,11 +62,15 @@ Running == phase = "Running" /\ Len(hist) < MaxHist
 
 ChangeKind(n) == CASE n = 0 -> "change0" [] n = 1 -> "change1" [] OTHER -> "change2"
 
+\* the version is the client's business: usually growing, but a document that is closed and opened again starts at 1
+\* again (the server does not implement didClose) - whatever the number, the text of the notification is the document
+Versions == IF "lowver" \in Kinds THEN {Step, 1} ELSE {Step}
 DidOpen(u, t) ==
   /\ Running /\ "open" \in Kinds
   /\ SetDoc(u, t)
-  /\ out' = Append(out, Pub(u, Step, Seen))
-  /\ Record([k |-> "open", u |-> u, t |-> t, v |-> Step])
+  /\ \E v \in Versions :
+        /\ out' = Append(out, Pub(u, v, Seen))
+        /\ Record([k |-> "open", u |-> u, t |-> t, v |-> v])
   /\ UNCHANGED <<phase, pending>>
 
 \* full-text synchronisation: every change carries a whole text, applied in order => the last one wins;
